@@ -410,3 +410,38 @@ def _(c):
     c.ensures("(lambda d: near(d['mass'], tot[0]) and near(d['Z'], tot[1]) and near(d['N'], tot[2]) and near(d['e'], tot[3]))(self.data_composite(quantity=False)['sum'].data())", "totals-are-count-weighted-sums")
     c.ensures("all([near(comp.mass.value('Da'), sp[k][0]) and near(comp.N, sp[k][2]) and comp.natural == nat for k, comp in self.components.items()])", "per-species-data-in-the-requested-isotope-mode")
     c.no_raise()
+
+
+
+# ---- what add() does to one substance is invisible to substances built afterwards (also for single-species formulas) ----------------
+@contract("materials/composite.py::Composite.add", ["C10"], name="Composite.add[then-a-fresh-substance]")
+def _(c):
+    c.bound = "single- and two-species formulas; amount symbolic"
+    c.chunk = 2
+    for text, key in [("Fe", "Fe"), ("(Fe)", "Fe"), ("Cl{+}", "Cl{+}"), ("H2O", "O"), ("Fe", "O")]:
+        for nat in (True, False):
+            def pre(b, text=text, key=key, nat=nat):
+                return dict(args=[b.new(SUB, text, natural=nat), key, b.real("p")], env=dict(text=text, nat=nat, cls=b.cls(SUB), c0=dict(M.expand_text(text.strip("()")))))
+            c.scenario(f"{text} add {key}[{'natural' if nat else 'abundant'}]", pre)
+    c.requires("proportion > 0")
+    c.ensures("counts(cls(text, natural=nat)) == c0", "a-substance-built-afterwards-has-the-counts-of-its-formula")
+    c.no_raise()
+
+
+# ---- number density and volume given: the total mass follows the formula mass through add() ------------------------------------------
+@contract("materials/composite.py::Composite.add", ["C12"], name="Composite.add[number-density-and-volume]")
+def _(c):
+    c.bound = "two substances with a number density and a volume; amount, density and volume symbolic"
+    c.chunk = 2
+    c.assume_nonzero_divisors = True
+    for text, key in [("H2O", "O"), ("H2O", "C"), ("NaCl", "Na")]:
+        def pre(b, text=text, key=key):
+            n, vol, p = b.real("n"), b.real("vol"), b.real("p")
+            s = b.new(SUB, text, number_density=b.new(QTY, n, "cm-3"), volume=b.new(QTY, vol, "l"))
+            return dict(args=[s, key, p], env=dict(n=n, vol=vol, p=p, m0=_mass(text) * DA_G, mk=M.species(key)[0] * DA_G))
+        c.scenario(f"{text} add {key}", pre)
+    c.requires("n > 0 and vol > 0 and p > 0")
+    c.ensures("near(self.mass_density.value('g/cm3'), n * (m0 + p * mk))", "mass-density-is-n-times-the-new-formula-mass")
+    c.ensures("near(self.mass.value('g'), n * (m0 + p * mk) * vol * 1000)", "mass-is-rho-times-volume")
+    c.ensures("(lambda t: near(t['sum'].data()['M'], self.mass.value('g')))(self.data_matter(quantity=False))", "component-masses-add-up-to-the-total-mass")
+    c.no_raise()
